@@ -121,7 +121,7 @@ Section Variant.
     end.
 
   Definition op_index (o : op) : N := match o with Begin i | Done i | Wait i => i end.
-  Definition op_delta (o : op) : Z := match o with Begin _ => 1%Z | _ => (-1)%Z end.
+  Definition op_delta (o : op) : Z := match o with Begin _ => 1%Z | Done _ => (-1)%Z | Wait _ => 0%Z end.
   Definition is_begin (o : op) : bool := match o with Begin _ => true | _ => false end.
 
   (** pc after addIndex returned / after setLastIndex returned, for operation [o] *)
